@@ -143,6 +143,45 @@ fn run_history(cx: &mut Cx, lang: &'static str, ops: &[Op], sample: bool) -> boo
     true
 }
 
+/// C10 soak: more than 2^16 searches on one store; compared with a freshly built store around every
+/// power of two (where narrow counters wrap) and at every 97th search otherwise.
+fn c10_soak(cx: &mut Cx, lang: &'static str) {
+    let words = ["metal", "mailbox", "yellow", "shirt", "wi", "fi", "the", "für", "ёлка", "t-shirt", "straße", "detector"];
+    let mut recs: Vec<Rec> = (0..cx.rng.range(3, 9)).map(|i| (i + 1, format!("{} {}", cx.rng.pick(&words), cx.rng.pick(&words)), cx.rng.below(9))).collect();
+    let limit = *cx.rng.pick(&[1usize, 2, 3, 10]);
+    let mut st = St::build(lang, &recs, limit, ("[", "]"));
+    let mut fresh = St::build(lang, &recs, limit, ("[", "]"));
+    let queries: Vec<String> = words.iter().flat_map(|w| vec![w.to_string(), w.chars().take(2).collect::<String>()]).chain(vec![String::new()]).collect();
+    let total: usize = 70_000;
+    let mut compared = 0u64;
+    for k in 0..total {
+        let q = &queries[(k * 5 + k / 31) % queries.len()];
+        let got = st.search(q);
+        let n = k + 1;
+        let near_power = (8..=17).any(|b| { let p = 1usize << b; n + 6 >= p && n <= p + 6 });
+        if near_power || n % 97 == 0 || n == total {
+            cx.ctx(format!("C10 soak lang={} records={:?} limit={} search #{} q={:?}", lang, recs, limit, n, q));
+            let exp = fresh.search(q);
+            compared += 1;
+            if got != exp {
+                cx.fail("stale-answer", json!({"lang": lang, "records": recs, "limit": limit, "history": format!("{} searches on one store (queries cycling through {:?}), no mutation since the last add", n, queries),
+                    "search_number": n, "query": q, "got": got, "fresh_store_returns": exp}));
+                return;
+            }
+        }
+        if n % 20011 == 0 {
+            let r = (100 + n, format!("{} {}", cx.rng.pick(&words), cx.rng.pick(&words)), cx.rng.below(9));
+            st.add(&r);
+            recs.push(r);
+            fresh = St::build(lang, &recs, limit, ("[", "]"));
+        }
+    }
+    cx.evals_n(compared);
+    cx.count_n("soak searches on one store", total as u64);
+    cx.count_n("soak searches compared with a fresh store", compared);
+    cx.key(hparts(&[lang, &format!("{:?}", recs), "soak"]));
+}
+
 const EXH_OPS: usize = 9;
 
 fn exh_op(k: usize, lang: &str) -> Op {
@@ -370,6 +409,49 @@ impl History {
         }
     }
 
+    /// Soak: one long-lived store answering more than 2^16 non-empty searches (per-store counters,
+    /// epochs and statistics that only wrap after many calls). Every search is observed (panic
+    /// supervision); a rolling hash of all results is traced every 4096 searches for the build comparison.
+    fn c01_soak(&self, cx: &mut Cx, lang: &'static str) {
+        let corpus = corpus_recs();
+        let mut st = St::sentinel(lang, 5);
+        let mut titles: Vec<String> = vec![];
+        for i in 0..cx.rng.range(3, 8) {
+            let t = gen::realistic_title(&mut cx.rng, lang, &corpus);
+            st.add(&(i + 1, t.clone(), cx.rng.below(100)));
+            titles.push(t);
+        }
+        let queries: Vec<String> = (0..40).map(|_| c01_query(&mut cx.rng, lang, &st.store.lang, &titles)).filter(|q| q.chars().count() < 24).collect();
+        let total: usize = 70_000;
+        let mut rolling: u64 = 17;
+        let mut with_hits = 0u64;
+        for k in 0..total {
+            let q = &queries[(k * 7 + k / 40) % queries.len().max(1)];
+            if k % 8192 == 0 {
+                cx.ctx(format!("C01 soak lang={} titles={:?} search #{} q={:?}", lang, titles, k + 1, q));
+            }
+            let hits = st.search(q);
+            rolling = mix(rolling, hash_hits(&hits));
+            if !hits.is_empty() {
+                with_hits += 1;
+            }
+            if (k + 1) % 4096 == 0 || k + 1 == total {
+                cx.trace_note(&format!("soak #{} {:016x}", k + 1, rolling));
+            }
+            if k % 9973 == 0 && k > 0 {
+                let t = gen::realistic_title(&mut cx.rng, lang, &corpus);
+                st.add(&(1000 + k, t.clone(), cx.rng.below(100)));
+                titles.push(t);
+            }
+        }
+        cx.evals_n(total as u64);
+        cx.count_n("soak searches on one store", total as u64);
+        cx.count_max("most searches on one store max ", total as u64);
+        if with_hits > 0 {
+            cx.key(hparts(&[lang, &format!("{:?}", titles), "soak"]));
+        }
+    }
+
     fn c01_corpus(&self, cx: &mut Cx, lang: &'static str) {
         with_corpus_store(lang, |st, recs| {
             for _ in 0..20 {
@@ -550,15 +632,16 @@ impl Prop for History {
                 Stream::new("hist", 24000, 720000).asan(24000),
                 Stream::new("long", 800, 8000).asan(800),
                 Stream::new("corpus", 64, 1600).asan(64),
+                Stream::new("soak", 16, 64).asan(4),
             ],
-            Which::NoStale => vec![Stream::new("random", 48000, 2400000).miri(12), Stream::new("exhaustive", 567, 567).miri(0)],
+            Which::NoStale => vec![Stream::new("random", 48000, 2400000).miri(12), Stream::new("exhaustive", 567, 567).miri(0), Stream::new("soak", 16, 64)],
             Which::Registry => vec![Stream::new("core", 16000, 800000).miri(8), Stream::new("bridge", 4000, 200000).miri(4)],
         }
     }
     fn floors(&self) -> Vec<(&'static str, u64, u64)> {
         match self.0 {
-            Which::NoCrash => vec![("searches", 20000, 200000), ("searches with hits", 5000, 50000), ("joined-record hits (two spans from a one-word query)", 50, 500), ("non-ASCII queries", 2000, 20000), ("limit 0", 200, 2000), ("limit 65536", 200, 2000), ("long-text searches", 500, 5000), ("long-text searches with a query over 255 characters", 100, 1000), ("corpus-store searches", 300, 3000)],
-            Which::NoStale => vec![("search after add following an earlier search", 2000, 20000), ("search after clear following an earlier search", 500, 5000), ("search after limit following an earlier search", 500, 5000), ("empty-query search after a mutation following an earlier search", 1000, 10000), ("exhaustive histories", 20000, 200000), ("histories on a crowded store", 2000, 20000), ("histories that clear and refill a crowded store", 2000, 20000), ("search repeating the previous query after a mutation", 2000, 20000)],
+            Which::NoCrash => vec![("searches", 20000, 200000), ("searches with hits", 5000, 50000), ("joined-record hits (two spans from a one-word query)", 50, 500), ("non-ASCII queries", 2000, 20000), ("limit 0", 200, 2000), ("limit 65536", 200, 2000), ("long-text searches", 500, 5000), ("long-text searches with a query over 255 characters", 100, 1000), ("corpus-store searches", 300, 3000), ("soak searches on one store", 1000000, 4000000), ("most searches on one store max ", 66000, 66000)],
+            Which::NoStale => vec![("search after add following an earlier search", 2000, 20000), ("search after clear following an earlier search", 500, 5000), ("search after limit following an earlier search", 500, 5000), ("empty-query search after a mutation following an earlier search", 1000, 10000), ("exhaustive histories", 20000, 200000), ("histories on a crowded store", 2000, 20000), ("histories that clear and refill a crowded store", 2000, 20000), ("soak searches on one store", 1000000, 4000000), ("search repeating the previous query after a mutation", 2000, 20000)],
             Which::Registry => vec![("observations", 20000, 200000), ("observations with >= 2 live ids holding results", 2000, 20000), ("destroy", 300, 3000), ("searches", 3000, 30000)],
         }
     }
@@ -567,6 +650,8 @@ impl Prop for History {
         match (self.0, stream) {
             (Which::NoCrash, "hist") => self.c01_case(cx, lang),
             (Which::NoCrash, "long") => self.c01_long(cx, lang),
+            (Which::NoCrash, "soak") => self.c01_soak(cx, lang),
+            (Which::NoStale, "soak") => c10_soak(cx, lang),
             (Which::NoCrash, "corpus") => self.c01_corpus(cx, if idx % 2 == 0 { "en" } else { "none" }),
             (Which::NoStale, "random") => {
                 let allow_clear = cx.rng.chance(2, 3);
